@@ -16,10 +16,32 @@ static_assert(DLT_NULL == 0 && DLT_EN10MB == 1 && DLT_IEEE802_11 == 105 && DLT_L
               DLT_IEEE802_11_RADIO == 127 && DLT_PPI == 192, "Ppi.lean / Pktap.lean: DLT_* values");
 namespace wire {
 
+// the typed getter of a PPPoE tag (not search_tag: C04's value clause judges what the getter hands back), as hex
 inline std::string pppoe_typed(const PPPoE& p, PPPoE::TagTypes t) {
-    const PPPoE::tag* tg = p.search_tag(t);
-    if (!tg) return "nf";
-    return vh::to_hex(tg->data_ptr(), tg->data_size());
+    try {
+        std::string s;
+        byte_array b;
+        switch (t) {
+        case PPPoE::SERVICE_NAME: s = p.service_name(); break;
+        case PPPoE::AC_NAME: s = p.ac_name(); break;
+        case PPPoE::SERVICE_NAME_ERROR: s = p.service_name_error(); break;
+        case PPPoE::AC_SYSTEM_ERROR: s = p.ac_system_error(); break;
+        case PPPoE::GENERIC_ERROR: s = p.generic_error(); break;
+        case PPPoE::HOST_UNIQ: b = p.host_uniq(); return vh::to_hex(b.data(), b.size());
+        case PPPoE::AC_COOKIE: b = p.ac_cookie(); return vh::to_hex(b.data(), b.size());
+        case PPPoE::RELAY_SESSION_ID: b = p.relay_session_id(); return vh::to_hex(b.data(), b.size());
+        default: {
+            const PPPoE::tag* tg = p.search_tag(t);
+            if (!tg) return "nf";
+            return vh::to_hex(tg->data_ptr(), tg->data_size());
+        }
+        }
+        return vh::to_hex((const uint8_t*)s.data(), s.size());
+    } catch (const option_not_found&) {
+        return "nf";
+    } catch (const malformed_option&) {
+        return "malformed_option";
+    }
 }
 
 inline std::string pppoe_vendor(const PPPoE& p) {
